@@ -110,7 +110,7 @@ _add(
         "combined resolver and (if malformed) is_valid_expression. Oracle: three-valued hand-written recogniser (accept / reject / unspecified) "
         "and an exception-type monitor (only SyntaxError may escape). distinct non-trivial = distinct strings not rejected at the first character"
     ),
-    deciding={"any": {"strings": 2000, "condition-parser:accepted:ACCEPT": 200, "condition-parser:rejected:REJECT": 500, "resolver:accepted:ACCEPT": 300, "resolver:rejected:REJECT": 500, "is_valid_expression_on_malformed": 300, "package_failure_sequences": 30}},
+    deciding={"any": {"strings": 2000, "condition-parser:accepted:ACCEPT": 200, "condition-parser:rejected:REJECT": 500, "resolver:accepted:ACCEPT": 300, "resolver:rejected:REJECT": 500, "is_valid_expression_on_malformed": 300, "package_failure_sequences": 30, "calls_from_a_deep_call_stack": 8, "repeated_calls_by_keyword": 100}},
     headline=["strings", "nontrivial_strings", "is_valid_expression_on_malformed"],
 )
 
@@ -126,7 +126,7 @@ _add(
         "requirement_constraint_evaluation with harness evaluators; oracle: recursive reference evaluator on the generator's AST + documented "
         "outcome mapping. distinct non-trivial = distinct expression strings with >= 2 requirement keys and a hint or format constraint"
     ),
-    deciding={"any": {"expressions": 300, "nontrivial_expressions": 100, "evaluations_with_unknown": 1000, "async_evaluations": 500, "evaluations_with_shipped_evaluators": 200, "small_scope_expressions": 1000}},
+    deciding={"any": {"expressions": 300, "nontrivial_expressions": 100, "evaluations_with_unknown": 1000, "async_evaluations": 500, "evaluations_with_shipped_evaluators": 200, "small_scope_expressions": 1000, "evaluations_with_neutral_requirement_outcome": 200, "async_evaluations_with_context_managed_data": 300}},
     headline=["expressions", "nontrivial_expressions", "async_evaluations", "operator_calls_observed"],
 )
 
@@ -143,7 +143,7 @@ _add(
         "entries re-evaluated under all refinements. distinct non-trivial = distinct (transformation, expression, position) triples and (T6, "
         "expression, assignment) triples"
     ),
-    deciding={"any": {"expressions": 100, "variants:T1-hint-onto-whole": 100, "variants:T2-hint-onto-operand": 200, "variants:T3-attach-fc": 200, "variants:T4-redundant-brackets": 200, "variants:T5-swap-operands": 200, "definite_outcomes_with_unknown": 200}},
+    deciding={"any": {"expressions": 100, "variants:T1-hint-onto-whole": 100, "variants:T2-hint-onto-operand": 200, "variants:T3-attach-fc": 200, "variants:T4-redundant-brackets": 200, "variants:T5-swap-operands": 200, "definite_outcomes_with_unknown": 200, "async_related_pairs_written_with_packages": 50, "async_related_pairs_with_odd_hint_texts": 100}},
     headline=["expressions", "definite_outcomes_with_unknown", "async_related_pairs"],
 )
 
@@ -225,7 +225,7 @@ _add(
         "kept) of the resolved expression == tree of the textually substituted expression; flags separately; unknown package => "
         "NotImplementedError. distinct non-trivial = distinct (expression, table) with >= 2 package occurrences or package + time condition"
     ),
-    deciding={"any": {"cases": 200, "package_occurrences": 300, "time_condition_occurrences": 100, "unknown_package_runs": 20, "exactly_equal": 500, "distinct_release_orders": 100, "resolutions_with_shipped_resolvers": 100}},
+    deciding={"any": {"cases": 200, "package_occurrences": 300, "time_condition_occurrences": 100, "unknown_package_runs": 20, "exactly_equal": 500, "distinct_release_orders": 100, "resolutions_with_shipped_resolvers": 100, "resolutions_without_package_table": 50, "resolutions_for_a_format_without_package_table": 50}},
     headline=["cases", "package_occurrences", "time_condition_occurrences", "unknown_package_runs", "distinct_release_orders", "association_only_difference"],
 )
 
@@ -242,7 +242,7 @@ _add(
         "kept) equals the form of the first parse; requirement evaluation of the pool's expressions before == after the history. distinct "
         "non-trivial = distinct histories"
     ),
-    deciding={"any": {"histories": 50, "mutations": 1000, "nested_mutations": 200, "hits_compared": 2000, "floods": 2, "evaluations_compared": 300, "cross_parser_calls": 500, "resolver_calls": 300, "full_resolver_results_compared": 300, "mutations_of_resolved_trees": 100}},
+    deciding={"any": {"histories": 50, "mutations": 1000, "nested_mutations": 200, "hits_compared": 2000, "floods": 2, "evaluations_compared": 300, "cross_parser_calls": 500, "resolver_calls": 300, "full_resolver_results_compared": 300, "mutations_of_resolved_trees": 100, "parse_calls_by_keyword": 500, "mutation:token-edit": 100}},
     headline=["histories", "mutations", "nested_mutations", "hits_compared", "floods", "evaluations_compared", "shared_objects_seen"],
 )
 
@@ -260,7 +260,7 @@ _add(
         "evaluations with their own data in context-local storage (diagonal log + own baseline); is_valid_expression under yielding evaluators "
         "must show the evaluators exactly the Cartesian product. distinct non-trivial = distinct expressions run under >= 2 distinct release orders"
     ),
-    deciding={"any": {"expressions": 100, "distinct_release_orders": 500, "runs_with_concurrently_parked_awaitables": 300, "exhaustively_enumerated_expressions": 5, "contract_multi:evaluate_conditions": 300, "contract_multi:evaluate_format_constraints": 50, "contract_multi:get_hints": 50, "contract_multi:gather_if_necessary": 100, "isolation_runs": 20, "isolation_events": 200, "validity_runs_with_concurrency": 10, "package_pairing_comparisons": 30, "direct_site_runs": 200, "direct_site_runs_with_contexts": 20, "expressions_with_a_repeated_package": 30, "failure_isolation_runs": 100}},
+    deciding={"any": {"expressions": 100, "distinct_release_orders": 500, "runs_with_concurrently_parked_awaitables": 300, "exhaustively_enumerated_expressions": 5, "contract_multi:evaluate_conditions": 300, "contract_multi:evaluate_format_constraints": 50, "contract_multi:get_hints": 50, "contract_multi:gather_if_necessary": 100, "isolation_runs": 20, "isolation_events": 200, "validity_runs_with_concurrency": 10, "package_pairing_comparisons": 30, "direct_site_runs": 200, "direct_site_runs_with_contexts": 20, "expressions_with_a_repeated_package": 30, "failure_isolation_runs": 100, "package_ticket_runs": 200, "isolation_runs_with_shipped_evaluators": 50, "deep_tree_isolation_runs": 20}},
     headline=["expressions", "runs", "distinct_release_orders", "exhaustively_enumerated_expressions", "isolation_runs", "validity_runs"],
 )
 
@@ -312,7 +312,7 @@ _add(
         "the element's result in the tree run == validate_data_element_freetext on the element alone with nothing yielding. distinct non-trivial = "
         "distinct (tree, assignment, schedule) with >= 2 elements' format constraints evaluated and >= 2 awaitables parked at once"
     ),
-    deciding={"any": {"trees": 100, "fc_events": 500, "trees_with_concurrent_elements": 50, "elements_compared_with_standalone": 300, "trees_with_shared_keys": 20, "runs_with_stale_text_in_context": 50, "trees_with_same_instant_in_different_notations": 20, "trees_with_reused_result_objects": 10, "date_verdicts_checked_fulfilled": 20, "date_verdicts_checked_unfulfilled": 50}},
+    deciding={"any": {"trees": 100, "fc_events": 500, "trees_with_concurrent_elements": 50, "elements_compared_with_standalone": 300, "trees_with_shared_keys": 20, "runs_with_stale_text_in_context": 50, "trees_with_same_instant_in_different_notations": 20, "trees_with_reused_result_objects": 10, "date_verdicts_checked_fulfilled": 20, "date_verdicts_checked_unfulfilled": 50, "elements_revalidated_as_the_same_object": 200}},
     headline=["trees", "fc_events", "trees_with_concurrent_elements", "elements_compared_with_standalone"],
 )
 
@@ -347,7 +347,7 @@ _add(
         "order, accept / flag-and-empty / forbidden per the property statement. distinct non-trivial = distinct (pool with >= 2 entries, "
         "assignment, parent, entry point)"
     ),
-    deciding={"any": {"pool_cases": 1000, "offered_none": 100, "input:offered": 100, "input:pool-member-not-offered": 50, "input:foreign": 100, "input:absent": 100, "parent:IS_FORBIDDEN": 50, "via_segment_forbidden": 10, "input:fragment-of-offered": 100}},
+    deciding={"any": {"pool_cases": 1000, "offered_none": 100, "input:offered": 100, "input:pool-member-not-offered": 50, "input:foreign": 100, "input:absent": 100, "parent:IS_FORBIDDEN": 50, "via_segment_forbidden": 10, "input:fragment-of-offered": 100, "input:blank-or-padded": 300}},
     headline=["pool_cases", "offered_none", "input:offered", "input:pool-member-not-offered", "input:foreign"],
 )
 
@@ -365,7 +365,7 @@ _add(
         "evaluating the round-tripped tree == evaluating the original. distinct non-trivial = distinct round-tripped trees, content evaluation "
         "results and extracts"
     ),
-    deciding={"any": {"trees": 200, "evaluations_compared": 100, "results_with_undetermined_outcome": 20, "round_trips:ahb-result": 50, "round_trips:requirement-result": 100, "round_trips:format-result": 100, "round_trips:content-evaluation-result": 300, "round_trips:categorized-key-extract": 50, "round_trips:evaluated-format-constraint": 200, "concise_dumps_before_round_trip": 100, "unsanitized_extracts": 50, "staged_resolutions": 30, "rejected_documents_in_between": 100}},
+    deciding={"any": {"trees": 200, "evaluations_compared": 100, "results_with_undetermined_outcome": 20, "round_trips:ahb-result": 50, "round_trips:requirement-result": 100, "round_trips:format-result": 100, "round_trips:content-evaluation-result": 300, "round_trips:categorized-key-extract": 50, "round_trips:evaluated-format-constraint": 200, "concise_dumps_before_round_trip": 100, "unsanitized_extracts": 50, "staged_resolutions": 30, "rejected_documents_in_between": 100, "foreign_schema_classes_defined": 1, "extracts_round_tripped_after_use": 50}},
     headline=["trees", "evaluations_compared", "results_with_undetermined_outcome"],
 )
 
@@ -374,22 +374,22 @@ _add(
 RULE_ADDITIONS = {
     "C01": "small scope, complete: EVERY sequence of up to 5 (thorough: 6) operators out of {juxtaposition, U, X, O} between atoms; runs of 33-66 (thorough: up to 129) operands joined mostly by ONE operator, with a few other operators and bracketed pairs in between, each with and without free whitespace.",
     "C07": "small scope, complete: EVERY structurally valid expression with up to 3 (thorough: 4) leaves over {[1], [2], [501], [901], [902]} under all assignments. every other truth assignment is evaluated with message-less constraint objects (what the dictionary based evaluators hand over).",
-    "C02": "every 7th string is parsed twice (same verdict); sequences 'well-formed string whose package is malformed -> repaired table / no package resolution'.",
-    "C04": "small scope, complete: EVERY structurally valid expression with up to 3 (thorough: 4) leaves over {[1], [2], [501], [901], [902]} under all 3^k assignments; half of the async evaluations run under a random completion order; every fourth expression also through the library's own evaluators (dictionary based, ContentEvaluationResult based with fresh and with ONE long-lived in-place refreshed EvaluatableData, user evaluator classes with instance state and new instances per message), assignments consecutively per mode; re-evaluation with the same tree and input node objects. the harness requirement evaluator routes two redefined keys through an overridden get_evaluation_method while the class still carries the superseded evaluate_<key> methods (which answer differently).",
-    "C05": "fresh keys include the ends of the hint / format-constraint ranges; up to six variants per expression also through the async API, mostly under a random completion order. a third of the async pairs with hint texts that are empty, blank, 0 or None (as strings).",
+    "C02": "every 7th string is parsed twice (same verdict); sequences 'well-formed string whose package is malformed -> repaired table / no package resolution'. runs of 90-100 operands handed to the two cached parsers from 650-700 frames deep in the caller (thorough: also 260 operands from the top level): a tree, no RecursionError; repeated calls pass the string by keyword half of the time.",
+    "C04": "small scope, complete: EVERY structurally valid expression with up to 3 (thorough: 4) leaves over {[1], [2], [501], [901], [902]} under all 3^k assignments; half of the async evaluations run under a random completion order; every fourth expression also through the library's own evaluators (dictionary based, ContentEvaluationResult based with fresh and with ONE long-lived in-place refreshed EvaluatableData, user evaluator classes with instance state and new instances per message), assignments consecutively per mode; re-evaluation with the same tree and input node objects. the harness requirement evaluator routes two redefined keys through an overridden get_evaluation_method while the class still carries the superseded evaluate_<key> methods (which answer differently). and-only expressions under assignments over all FOUR states (NEUTRAL answered by the user evaluator); a third of the async evaluations with an EvaluatableDataProvider that is a context manager (data released when the injected call returns); ContentEvaluationResult bodies spell the states in upper / lower / title case.",
+    "C05": "fresh keys include the ends of the hint / format-constraint ranges; up to six variants per expression also through the async API, mostly under a random completion order. a third of the async pairs with hint texts that are empty, blank, 0 or None (as strings). a third of the async pairs written with packages (resolved by the library first).",
     "C06": "small scope, complete: EVERY expression of the domain (valid and invalid) with up to 3 (thorough: 4) leaves over {[1], [2], [501], [901], [902]} under all assignments; is_valid_expression also on the already resolved tree; a class of expressions built from hints and format constraints alone (the 'directly combines a single hint with a single format constraint' boundary); failing out-of-domain evaluations interleaved with the judged ones.",
     "C08": "small scope, complete: EVERY U/O/X expression with up to 3 (thorough: 4) leaves over three keys (minimal brackets / flat runs, all spellings) under all truth assignments; message-less constraints through the tree evaluator (Boolean clause only); async evaluations mostly under a random completion order; the library's dictionary / ContentEvaluationResult based evaluators with and without messages; 2-5 concurrent evaluations of one expression with different texts (no foreign text in a message).",
     "C09": "every fifth case an AHB expression whose parts are written with packages (several per part, different nesting depths) evaluated after resolution against the parts' own written-out condition expressions; the first assignment of every expression also through the library's own dictionary / ContentEvaluationResult based evaluators (same result as with equivalent user evaluators).",
-    "C10": "a third of the cases with packages also against a message of a format / version for which no package table is registered (NotImplementedError demanded); shipped resolvers incl. a user-written provider that serves one DictBasedPackageResolver created without format; half of the cases also through the library's own package resolvers (dictionary based; ContentEvaluationResult based with the same resolver instances and changing data).",
-    "C11": "the combined resolver (time conditions kept, so that it hands out what it got from the condition parser) is part of the histories: its trees are edited too and the condition parts of the AHB expressions are pool strings of their own; flood strings must parse; every pool string also goes to the OTHER parser before, during and after the history (must stay a SyntaxError); 11 strings with packages and all three time conditions go through the resolver with everything switched on, the trees it returns are edited and every such string is resolved again (first result == every later result).",
-    "C12": "a third of the expressions use one package at several places (every occurrence a look-up of its own); the abbreviated expression must evaluate like the expression with every package written out; the three gather sites called directly (evaluate_conditions also with per-key evaluation contexts, a key asked for twice) under all / sampled orders; the harness evaluator narrows and re-reads its evaluation context around the yield; 2-4 concurrent evaluations whose requirement evaluators await look-ups SHARED between all of them while one evaluation fails (an invalid modal-mark part beside a valid one): every other evaluation must end as it does alone (FIFO, LIFO, 3 random orders).",
+    "C10": "a third of the cases with packages also against a message of a format / version for which no package table is registered (NotImplementedError demanded); shipped resolvers incl. a user-written provider that serves one DictBasedPackageResolver created without format; half of the cases also through the library's own package resolvers (dictionary based; ContentEvaluationResult based with the same resolver instances and changing data). a content evaluation result without package table (packages = None) through the cer / hardcoded resolvers; repeatabilities whose bounds have different numbers of digits (2..10, 9..10, 5..100).",
+    "C11": "the combined resolver (time conditions kept, so that it hands out what it got from the condition parser) is part of the histories: its trees are edited too and the condition parts of the AHB expressions are pool strings of their own; flood strings must parse; every pool string also goes to the OTHER parser before, during and after the history (must stay a SyntaxError); 11 strings with packages and all three time conditions go through the resolver with everything switched on, the trees it returns are edited and every such string is resolved again (first result == every later result). a fifth of the parse calls pass the string by keyword; the edit operations include writing .value / .type of a Token of a returned tree.",
+    "C12": "a third of the expressions use one package at several places (every occurrence a look-up of its own); the abbreviated expression must evaluate like the expression with every package written out; the three gather sites called directly (evaluate_conditions also with per-key evaluation contexts, a key asked for twice) under all / sampled orders; the harness evaluator narrows and re-reads its evaluation context around the yield; 2-4 concurrent evaluations whose requirement evaluators await look-ups SHARED between all of them while one evaluation fails (an invalid modal-mark part beside a valid one): every other evaluation must end as it does alone (FIFO, LIFO, 3 random orders). 150 isolation cases through the shipped ContentEvaluationResult based evaluators (one set of instances, per-task results in context-local data); a package resolver that answers every look-up with a numbered expression of its own (each answer must be in the resolved tree exactly once, all orders); is_valid_expression must hand a different element of the product to every evaluation it starts.",
     "C13": "complete parent x child table: every (indicator, outcome) of a parent x every (indicator, outcome) of its child x both flag values for group > segment and segment > free text (thorough: three levels); validate_segment(_group) with an explicit parent status (all three); batches of 2-4 validations awaited from one coroutine; a quarter of the runs through the library's own evaluators; 40 % of the trees with maus line indexes in flat-AHB order; a third of the trees partly written with packages.",
     "C14": "35 % of the trees with exactly one UNKNOWN key (so that it reaches only SOLL nodes); the segment-level entry point without flag after a refused run with flag False in the same task; a third of the trees partly written with packages.",
-    "C15": "inputs with leading / trailing whitespace and whitespace-only inputs; trees whose evaluator answers with long-lived per-key result objects; every fourth tree shares three keys between all elements, every sixth uses the shipped 932-935 on ONE instant written in up to nine notations, half of the runs start with a stale text in the caller's context; no other element's input may appear in an element's result; every sixth tree gives each element its own instant and notation under a shipped 931-935 (written as key or as [UB1]/[UB2], half of the elements typed DATETIME/TEXT): the reported verdict must be the independent calendar's verdict on the input as entered.",
+    "C15": "inputs with leading / trailing whitespace and whitespace-only inputs; trees whose evaluator answers with long-lived per-key result objects; every fourth tree shares three keys between all elements, every sixth uses the shipped 932-935 on ONE instant written in up to nine notations, half of the runs start with a stale text in the caller's context; no other element's input may appear in an element's result; every sixth tree gives each element its own instant and notation under a shipped 931-935 (written as key or as [UB1]/[UB2], half of the elements typed DATETIME/TEXT): the reported verdict must be the independent calendar's verdict on the input as entered. every other element is re-validated on its own AS THE SAME OBJECT that went through the tree run.",
     "C16": "35 % of the injections with one pending look-up per requirement key shared between all nodes; hint texts contain braces, percent signs and quotes; a third of the trees partly written with packages.",
-    "C17": "12 % of the pool entries carry an empty, blank or \"0\" meaning.",
+    "C17": "12 % of the pool entries carry an empty, blank or \"0\" meaning. padded offered qualifiers and blank inputs (never offered).",
     "C18": "fixed extraction cases every run contains (unknown package, out-of-range keys, nested package, all flags); a second sum with the same left summand; the product regenerated after keys were added to the same extract.",
-    "C19": "staged resolution on one tree object (inspect unresolved, then expand); dumps through the concise schemas and rejected documents interleaved; long-lived schema instances; extracts as extracted (unsanitised). extracts are round-tripped again after generate_possible_content_evaluation_results() was called on them.",
+    "C19": "staged resolution on one tree object (inspect unresolved, then expand); dumps through the concise schemas and rejected documents interleaved; long-lived schema instances; extracts as extracted (unsanitised). extracts are round-tripped again after generate_possible_content_evaluation_results() was called on them. after 50 cases the process defines marshmallow schema classes of its own whose names coincide with those of ahbicht (one process-wide class registry).",
 }
 for _pid, _text in RULE_ADDITIONS.items():
     META[_pid]["rule"] += " Also: " + _text
